@@ -30,7 +30,9 @@ namespace rkcommon {
 
     void BufferReader::read(void *mem, size_t size)
     {
-      if (cursor + size > buffer->size())
+      // NOTE: not 'cursor + size > buffer->size()', the sum wraps around for
+      //       huge sizes
+      if (cursor > buffer->size() || size > buffer->size() - cursor)
         throw std::runtime_error("Attempt to read past end of BufferReader!");
 
       if (mem && size > 0)
@@ -55,7 +57,7 @@ namespace rkcommon {
 
     void FixedBufferWriter::write(const void *mem, size_t size)
     {
-      if (cursor + size > buffer->size()) {
+      if (cursor > buffer->size() || size > buffer->size() - cursor) {
         throw std::runtime_error(
             "FixedBufferWriter::write size exceeds buffer");
       }
@@ -66,7 +68,7 @@ namespace rkcommon {
 
     void *FixedBufferWriter::reserve(size_t size)
     {
-      if (cursor + size > buffer->size()) {
+      if (cursor > buffer->size() || size > buffer->size() - cursor) {
         throw std::runtime_error(
             "FixedBufferWriter::reserve size exceeds buffer");
       }
